@@ -19,7 +19,7 @@ Cases:
   `dyn T V`        → `<cell hex> -> <decoded value>` | `<cell hex> -> err K` | `err K`
   `carrier C T V`  → `<cell hex>` | `err K`      (V is the embedding of the Rust carrier value; the model runs
                      the TYPED serializer `TypedCarrier.serCarrier` of carrier C on the un-embedded value)
-  `carrierset C T V` → `ok <cell length>` | `err K` (hash-based carriers: element order is arbitrary)
+  `carrierset C T V` → `ok <header hex> <entries sorted>` | `err K` (hash-based carriers: entry order is arbitrary)
   `dec T <hex>|null` → `<decoded value>` | `err K`  (decoder on an arbitrary cell body)
   `dynraw T V`     → `<content hex>` | `err K`   (`write_size = false` at the top level)
   `big blob n`     → `ok <len>` | `err SizeOverflow`  (size check only)
@@ -266,7 +266,7 @@ def leafCarrier : String → Option Carrier
   | "time" => some .time | "timestamp" => some .timestamp | "duration" => some .duration
   | "varint" => some .varint | "decimal" => some .decimal | "counter" => some .counter | "dyn" => some .dyn
   -- identified with their content / their core carrier after conversion
-  | "bytes" | "bytesref" => some .blob
+  | "bytes" | "bytesref" | "bytesarr4" | "bytesarr16" => some .blob
   | "strref" | "cowstr" | "secret08string" | "secret10string" => some .string
   | "varintborrowed" | "bigint03" | "bigint04" => some .varint
   | "decimalborrowed" | "bigdecimal" => some .decimal
@@ -285,8 +285,8 @@ def parseCarrier : Nat → List String → Option (Carrier × List String)
     | "opt" => (parseCarrier fuel rest).map fun (c, r) => (.opt c, r)
     | "munset" => (parseCarrier fuel rest).map fun (c, r) => (.maybeUnset c, r)
     | "mempty" => (parseCarrier fuel rest).map fun (c, r) => (.maybeEmpty c, r)
-    | "vec" => (parseCarrier fuel rest).map fun (c, r) => (.vec c, r)
-    | "box" | "arc" => parseCarrier fuel rest
+    | "vec" | "slice" => (parseCarrier fuel rest).map fun (c, r) => (.vec c, r)
+    | "box" | "arc" | "dynser" => parseCarrier fuel rest
     | "bset" | "hset" => (parseCarrier fuel rest).map fun (c, r) => (.set c, r)
     | "bmap" | "hmap" =>
       match parseCarrier fuel rest with
@@ -359,6 +359,38 @@ def unembedTuple : List Carrier → List CqlVal → Option (List RustVal)
   | _, _ => none
 end
 
+/-- One `[bytes]` item at the front of `bs`: its raw bytes (prefix included) and the rest. -/
+def splitItem (bs : List UInt8) : Option (List UInt8 × List UInt8) :=
+  if bs.length < 4 then none
+  else
+    let n := beNat (bs.take 4)
+    let len := if n > i32Max then 0 else n
+    if bs.length < 4 + len then none else some (bs.take (4 + len), bs.drop (4 + len))
+
+/-- The entries (1 or 2 items each) of a collection body, as hex strings. -/
+def splitEntries (pair : Bool) : Nat → List UInt8 → Option (List String)
+  | 0, _ => none
+  | _, [] => some []
+  | fuel + 1, bs =>
+    match splitItem bs with
+    | none => none
+    | some (a, r1) =>
+      if pair then
+        match splitItem r1 with
+        | none => none
+        | some (b, r2) => (splitEntries pair fuel r2).map fun es => toHex (a ++ b) :: es
+      else (splitEntries pair fuel r1).map fun es => toHex a :: es
+
+/-- Canonical form of a collection cell whose entries come in arbitrary order (hash-based carriers). -/
+def canonUnordered (cell : List UInt8) (pair : Bool) : String :=
+  if cell.length < 8 then toHex cell
+  else
+    match splitEntries pair (cell.length + 1) (cell.drop 8) with
+    | none => toHex cell
+    | some es =>
+      let sorted := es.mergeSort (fun a b => compare a b != .gt)
+      toHex (cell.take 8) ++ " " ++ (if sorted.isEmpty then "-" else ",".intercalate sorted)
+
 /-- A `carrier` case: the typed serializer of the carrier on the value whose embedding is given. -/
 def runCarrier (name : String) (t : CqlTy) (v : CqlVal) : Option (Except SerErr Bytes) :=
   match carrierOfName name with
@@ -402,7 +434,7 @@ def run (case _impl : String) : String :=
         match runCarrier name t v with
         | none => "bad-case"
         | some (.error e) => "err " ++ serErrName e
-        | some (.ok cell) => "ok " ++ toString cell.length
+        | some (.ok cell) => "ok " ++ canonUnordered cell (match t with | .map _ _ => true | _ => false)
       | _ => "bad-case"
   | "dynraw" :: rest =>
     match parseTy fuel rest with
